@@ -85,10 +85,11 @@ SIGMA = ['a', '1', ' ', '"', "'", '\\', '(', ')', '\n', '\t', 'é', ';', '{', '}
 # role of a character in the quoting / escaping rules of CSS; the essential set of a string / URL finding is a set of roles
 ROLE = {
     'a': 'plain', '1': 'plain', 'é': 'plain', ' ': 'blank', '\t': 'blank', '"': 'dquote', "'": 'squote', '\\': 'backslash',
-    '(': 'paren', ')': 'paren', '\n': 'linebreak', '\r': 'linebreak', '\f': 'linebreak', ';': 'punctuation', '{': 'punctuation', '}': 'punctuation', '/': 'punctuation',
+    '(': 'paren', ')': 'paren', '\n': 'linebreak', '\r': 'linebreak', '\f': 'linebreak',
+    '\xa0': 'python-blank', '\u3000': 'python-blank', '\u2028': 'python-blank', '\x0b': 'python-blank', ';': 'punctuation', '{': 'punctuation', '}': 'punctuation', '/': 'punctuation',
     '*': 'punctuation', ',': 'punctuation', '-': 'punctuation',
 }
-ROLES = ['backslash', 'dquote', 'squote', 'linebreak', 'blank', 'paren', 'punctuation']
+ROLES = ['backslash', 'dquote', 'squote', 'linebreak', 'blank', 'paren', 'punctuation', 'python-blank']
 STR_FORMS = ['dq', 'sq']
 URL_FORMS = ['bare', 'dq', 'sq']
 RGB_N = ['0', '1', '127', '128', '255', '256', '-1']
@@ -1015,6 +1016,10 @@ def run_shard(shard, tier, seed):
                     evaluate(res, {'family': 'url', 'comps': [['url', content, 'dq-hex']], 'seps': []}, 2)
             # the other two line breaks of CSS (the alphabet of the string / URL products has the line feed only)
             for content in ('a\ra', '\ra', 'a\r', 'a\fa', '\fa', 'a\f', '\r', '\f', 'a\r\na', 'a\r a'):
+                for case in _str_cases(content):
+                    evaluate(res, case, 2)
+            # characters that are white space for Python only, at the edges of a string / URL (nothing may trim them)
+            for content in ('\xa0a', 'a\xa0', '\u3000a', 'a\u3000', '\u2028a', 'a\u2028', '\xa0', 'a\xa0a', '\x0ba', 'a\x0b'):
                 for case in _str_cases(content):
                     evaluate(res, case, 2)
             # delimiters of the unquoted form written as hexadecimal escapes are content, at the edges too
